@@ -308,7 +308,7 @@ def judge(case, res, V):
                 what = "fs-event"
             V.violation("cli:%s:%s" % (case["mode"], what), case, res)
         if "traceback" in res:
-            V.violation("cli:traceback", case, res["traceback"])
+            return None  # an unhandled exception is C19's business; nothing to conclude about C04 from this run
         return "cli:%s:%s:%s" % (case["file"], case["cfg"], case["mode"])
     return None
 
